@@ -196,7 +196,10 @@ def run(ctx):
     m = pgpy.PGPMessage.new(b'passphrase protected', compression=CompressionAlgorithm.Uncompressed, format='b')
     blobP = bytes(m.encrypt('right passphrase', cipher=SymmetricKeyAlgorithm.AES256))
     origP = [sha(b'passphrase protected')]
-    for pw, wk in (('right passphrase', False), ('wrong passphrase', True), ('', True), ('right passphrase ', True), ('Right passphrase', True)):
+    for pw, wk in (('right passphrase', False), ('wrong passphrase', True), ('', True), ('right passphrase ', True), ('Right passphrase', True),
+                   # near misses: a passphrase is an octet string; anything but the exact one is a wrong one
+                   ('right passphrase\n', True), ('right passphrase\r\n', True), ('right passphrase\t', True), (' right passphrase', True),
+                   ('right passphrase\x00', True), ('right passphras', True), ('right  passphrase', True), ('right passphrase'.encode('utf-16-le').decode('latin-1'), True)):
         o, p = attempt(pgpy, blobP, lambda mm, pw=pw: mm.decrypt(pw))
         ev.append({'k': 'tamper', 'action': 'passphrase %r' % pw, 'region': '-', 'recipient': 'pw', 'cipher': 9, 'outcome': o, 'plain': p, 'originals': origP, 'wrongkey': wk, 'size': 20})
     # histories on ONE message object: a successful decryption must not make later wrong passphrases acceptable, and vice versa
